@@ -322,6 +322,7 @@ def run(tier):
         res.instance("C11.R4", "psDhGenSharedSecret: pstm_exptmod call (%d valuations)" % n, bad is None, finding=fd)
     rule_R5(res, prog)
     rule_R3(res, prog)
+    rule_R6(res, prog)
     return res.finish()
 
 
@@ -448,3 +449,182 @@ def rule_R3(res, prog):
                 res.instance("C11.R3", "%s:%s %s(%s, %s, %s)" % (fn.name, ln, c["fn"], a0[:20], a1[:20], ln_[:20]), ok, finding=f_)
     res.floor("C11.R3", 1)
 
+
+def rule_R6(res, prog):
+    """EMSA/EME-PKCS1-v1_5 decoding is canonical: every byte of the encoded message that the decoder steps over before
+    the payload was compared on that path - for equality with a constant / the requested block type, or (block type 02
+    only) for being non-zero.  A byte skipped after only a failed equality test, or with no test, lets more than one
+    encoding of the same payload verify."""
+    from sa import cfgutil as cu
+    from sa.pp import pp
+    rid = "C11.R6"
+    res.rule(rid, "PKCS#1 v1.5 unpadding: each byte stepped over before the payload was tested on that path (== constant; "
+                  "non-zero only for block type 02)")
+    fn = prog.fn("pkcs1UnpadExt")
+    # the cursor: the local pointer that is dereferenced in branch conditions and incremented
+    cands = {}
+    for b in fn.blocks:
+        t = b.get("term")
+        if t is None or "c" not in t:
+            continue
+        for n in walk(t["c"]):
+            if n.get("k") == "un" and n["op"] == "*":
+                v = strip(n["e"])
+                if v is not None and v.get("k") == "un" and v["op"] in ("post++", "pre++"):
+                    v = strip(v["e"])
+                if v is not None and v.get("k") == "var" and v.get("sc") == "l" and "id" in v:
+                    cands[v["id"]] = cands.get(v["id"], 0) + 1
+    if not cands:
+        raise AnalysisBroken("C11.R6: no dereferenced cursor in the conditions of pkcs1UnpadExt")
+    cid = max(cands, key=lambda k: cands[k])
+
+    def is_c(e):
+        e = strip(e)
+        return e is not None and e.get("k") == "var" and e.get("id") == cid
+
+    def deref_kind(e):
+        """'cur' for *c, 'adv' for *c++ (reads the current byte and advances), else None"""
+        e = strip(e)
+        while e is not None and e.get("k") == "cast":
+            e = strip(e["e"])
+        if e is None or e.get("k") != "un" or e["op"] != "*":
+            return None
+        v = strip(e["e"])
+        if is_c(v):
+            return "cur"
+        if v is not None and v.get("k") == "un" and v["op"] == "post++" and is_c(v["e"]):
+            return "adv"
+        return None
+
+    def byte_atoms(cond, truth):
+        """[(kind, ('eq'|'ne', K))] for atoms of the condition that compare the current byte"""
+        out = []
+        for (txt, tr, nd) in cu._cond_atoms(cond, truth):
+            nd = strip(nd)
+            dk = deref_kind(nd)
+            if dk:                                   # `*c` used as a truth value
+                out.append((dk, ("ne" if tr else "eq", 0)))
+                continue
+            if nd is None or nd.get("k") != "bin" or nd["op"] not in ("==", "!="):
+                continue
+            for a_, b_ in ((nd["l"], nd["r"]), (nd["r"], nd["l"])):
+                dk = deref_kind(a_)
+                b0 = strip(b_)
+                while b0 is not None and b0.get("k") == "cast":
+                    b0 = strip(b0["e"])
+                if dk and b0 is not None:
+                    K = b0["v"] if b0.get("k") == "int" else ("param:" + b0["n"]) if (b0.get("k") == "var" and b0.get("sc") == "p") else None
+                    if K is None:
+                        continue
+                    out.append((dk, ("eq" if (nd["op"] == "==") == bool(tr) else "ne", K)))
+        return out
+
+    def misc_atoms(cond, truth):
+        """(exhausted?, block type == 01 fact)"""
+        exh, dt = False, None
+        for (txt, tr, nd) in cu._cond_atoms(cond, truth):
+            nd = strip(nd)
+            if nd is None or nd.get("k") != "bin":
+                continue
+            l_, r_ = strip(nd["l"]), strip(nd["r"])
+            if nd["op"] in ("<", ">=") and is_c(l_) and ((nd["op"] == "<") != bool(tr)):
+                exh = True
+            if nd["op"] in ("==", "!=") and l_ is not None and l_.get("k") in ("var", "cast"):
+                v = l_
+                while v is not None and v.get("k") == "cast":
+                    v = strip(v["e"])
+                if v is not None and v.get("k") == "var" and v.get("sc") == "p" and r_ is not None and r_.get("k") == "int":
+                    if r_["v"] == 1:
+                        dt = (nd["op"] == "==") == bool(tr)
+                    elif (nd["op"] == "==") == bool(tr):
+                        dt = False
+        return exh, dt
+
+    def accept(tested, dt):
+        if any(a[0] == "eq" for a in tested):
+            return True
+        return ("ne", 0) in tested and dt is False
+    # blocks from which a success return is reachable
+    succ_ret = set()
+    for b in fn.blocks:
+        for i, ln, x in cu.block_exprs(b):
+            if x.get("k") == "ret" and cu.success_ret(x):
+                succ_ret.add(b["id"])
+    can = set(succ_ret)
+    changed = True
+    while changed:
+        changed = False
+        for b in fn.blocks:
+            if b["id"] not in can and any(sc.get("b") in can for sc in b["succ"]):
+                can.add(b["id"])
+                changed = True
+    judged = {}
+
+    def judge(ln, ok, tested, dt, what):
+        ent = judged.setdefault(ln, {"ok": True, "why": None, "n": 0})
+        ent["n"] += 1
+        if not ok and ent["ok"]:
+            ent["ok"] = False
+            ent["why"] = "%s with only %s established about the byte (block type 01 %s)" % (
+                what, sorted("%s %s" % a for a in tested) or "nothing",
+                {True: "established", False: "excluded", None: "not excluded"}[dt])
+    seen = set()
+    stack = [(fn.entry, frozenset(), False, None, False)]
+    while stack:
+        st = stack.pop()
+        if st in seen:
+            continue
+        seen.add(st)
+        bid, tested, consumed, dt, exh = st
+        b = fn.bmap[bid]
+        if bid not in can:
+            continue
+        t = b.get("term")
+        for i, ln, x in cu.block_exprs(b):
+            if i == "c":
+                break
+            for n in walk(x):
+                if n.get("k") == "bin" and n["op"] == "=" and not is_c(n["l"]) and any(deref_kind(m) for m in walk(n["r"])):
+                    consumed = True
+                if n.get("k") == "bin" and n["op"] in ("=", "+=") and is_c(n["l"]):
+                    if n["op"] == "+=":
+                        judge(ln, consumed or exh, tested, dt, "cursor advanced by `%s`" % pp(n)[:30])
+                    tested, consumed = frozenset(), False
+                if n.get("k") == "un" and n["op"] in ("post++", "pre++") and is_c(n["e"]):
+                    judge(ln, consumed or exh or accept(tested, dt), tested, dt, "byte stepped over by `%s`" % pp(n)[:20])
+                    tested, consumed = frozenset(), False
+        if t is not None and "c" in t and len(b["succ"]) == 2:
+            for k, sc in enumerate(b["succ"]):
+                s_ = sc.get("b")
+                if s_ is None:
+                    continue
+                ba = byte_atoms(t["c"], k == 0)
+                e2, d2 = misc_atoms(t["c"], k == 0)
+                nt = set(tested)
+                adv = False
+                for (dk, atom) in ba:
+                    nt.add(atom)
+                    adv = adv or dk == "adv"
+                ndt = dt if d2 is None else d2
+                nex = exh or e2
+                has_adv = any(deref_kind(m) == "adv" for m in walk(t["c"]))
+                if has_adv:
+                    if s_ in can:
+                        judge(t["ln"], consumed or nex or accept(frozenset(nt), ndt), frozenset(nt), ndt,
+                              "byte stepped over inside the condition `%s` (%s edge)" % (pp(t["c"])[:30], "true" if k == 0 else "false"))
+                    stack.append((s_, frozenset(), False, ndt, nex))
+                else:
+                    stack.append((s_, frozenset(nt), consumed, ndt, nex))
+        else:
+            for sc in b["succ"]:
+                if sc.get("b") is not None:
+                    stack.append((sc["b"], tested, consumed, dt, exh))
+    for ln, ent in sorted(judged.items()):
+        f_ = None
+        if not ent["ok"]:
+            f_ = Finding(PROP, rid, fn.name, "padding byte stepped over untested",
+                         "%s:%s %s(): %s: encodings other than 00 || BT || PS || 00 || payload are accepted (a signature whose "
+                         "encoded message differs from the one correct encoding verifies)" % (fn.relfile, ln, fn.name, ent["why"]),
+                         file=fn.relfile, line=ln)
+        res.instance(rid, "%s:%s cursor advance (%d path states)" % (fn.name, ln, ent["n"]), ent["ok"], finding=f_)
+    res.floor(rid, 4)
